@@ -77,14 +77,16 @@ var properties = map[string]*Property{
 	"C09": eProp("C09", []eRun{{"VerifC09SeqSmall", 0, 0, []string{"crash while the plan is durably Running", "action invoked during recovery", "action not invoked during recovery"}},
 		{"VerifC09PlanGroups", 0, 0, []string{"crash while the plan is durably Running"}}, {"VerifC09BlockGroups", 0, 0, []string{"crash while the plan is durably Running"}},
 		{"VerifC09Conc", 0, 1, []string{"crash while the plan is durably Running", "action invoked during recovery"}},
-		{"VerifC09Conc@slow:t", 0, 0, []string{"crash while the plan is durably Running", "action invoked during recovery"}}},
+		{"VerifC09Conc@slow:t", 0, 0, []string{"crash while the plan is durably Running", "action invoked during recovery"}},
+		{"VerifC09Double:t", 0, 0, []string{"second crash during recovery", "action invoked during recovery", "action not invoked during recovery"}}},
 		[]string{"crash points are the prefixes of the durable write log of a forward run (the crash index is a solver variable; the durable image is ite-encoded); in-memory state is lost, each write is atomic",
 			"shapes: one block with <=2 sequences x <=2 actions; 1x1x1 with the 7-subset family of plan-level resp. block-level groups (all 32 subsets in thorough); two parallel sequences",
-			"a second crash during recovery: thorough tier only (VerifC09Double)", "real process kill on a file-backed store is outside this technique"}),
+			"a second crash during recovery with a third engine instance: thorough tier only, on one block x one sequence x two actions (VerifC09Double, VerifC10Double); the quick tier covers the second crash through C10's resumability clause", "real process kill on a file-backed store is outside this technique"}),
 	"C10": eProp("C10", []eRun{{"VerifC10SeqSmall", 0, 0, []string{"crash while the plan is durably Running", "uninterrupted outcome Failed", "uninterrupted outcome Completed"}},
 		{"VerifC10PlanGroups", 0, 0, []string{"crash while the plan is durably Running"}}, {"VerifC10BlockGroups", 0, 0, []string{"crash while the plan is durably Running"}},
 		{"VerifC10Conc", 0, 1, []string{"crash while the plan is durably Running", "uninterrupted outcome Failed"}},
-		{"VerifC10Conc@slow:t", 0, 0, []string{"crash while the plan is durably Running", "uninterrupted outcome Failed"}}},
+		{"VerifC10Conc@slow:t", 0, 0, []string{"crash while the plan is durably Running", "uninterrupted outcome Failed"}},
+		{"VerifC10Double:t", 0, 0, []string{"second crash during recovery", "uninterrupted outcome Failed", "uninterrupted outcome Completed"}}},
 		[]string{"as C09; the outcome-equality clause is asserted with one verdict variable per action shared by both processes, on shapes without continuous checks",
 			"constructing a Workstream (coercion.New -> execute.New -> recover) is C11's harness; here States.Recovery is entered directly with the plan a vault Read returns"}),
 	"C11": {
